@@ -43,6 +43,7 @@ type User implements Node & Named {
   kind: Kind!
   friend: User
   friends: [User!]
+  owner: Node!
   blob: Blob
   score: Float
   active: Boolean!
@@ -142,7 +143,7 @@ LEAVES = {
     "Node": ["id"],
     "U": [],
 }
-COMPOSITE_FIELDS = {"User": [("friend", "User"), ("friends", "User")]}
+COMPOSITE_FIELDS = {"User": [("friend", "User"), ("friends", "User"), ("owner", "Node")]}   # owner: Node! - a NON-NULL abstract field
 DIRECTIVES = [("@include(if: $v)", "include_var"), ("@skip(if: $v)", "skip_var"), ("@skip(if: true)", "skip_true"), ("@include(if: true)", "include_true")]
 TYPE_CONDS = ["User", "Admin", "Bot", "Named", "Node", "U"]
 
@@ -170,6 +171,9 @@ def menu(tname, rich=True):
         for j, (s, tags, frags) in enumerate(SUB[ft][:3] if rich else SUB[ft][:1]):
             items.append(Item(f"{f} {{ {s} }}", {"composite_field", *tags}, frags))
         items.append(Item(f"{f} @include(if: $v) {{ id }}", {"composite_field", "field_directive", "composite_include_var"}, var=True))
+        if ft != tname:
+            # a conditional field of another (abstract) type, selected through a type-specific inline fragment
+            items.append(Item(f"{f} @skip(if: $v) {{ {SUB[ft][1][0]} }}", {"composite_field", "field_directive", "composite_skip_var", *SUB[ft][1][1]}, SUB[ft][1][2], var=True))
         items.append(Item(f'{f} @tag(name: "x") @skip(if: $v) {{ id }}', {"composite_field", "field_directive", "two_directives", "conditional_second"}, var=True))
         items.append(Item(f"al1_{f}: {f} {{ id }}", {"composite_field", "alias", "aliased_composite"}))
         items.append(Item(f"al2_{f}: {f} {{ name kind }}", {"composite_field", "alias", "aliased_composite", "enum"}))
